@@ -1,11 +1,12 @@
 pub mod c03;
 pub mod c04;
+pub mod c12;
 pub mod c13;
 pub mod c15;
 
 use crate::framework::Property;
 
-pub static ALL: &[&dyn Property] = &[&c03::C03, &c04::C04, &c13::C13, &c15::C15];
+pub static ALL: &[&dyn Property] = &[&c03::C03, &c04::C04, &c12::C12, &c13::C13, &c15::C15];
 
 pub fn lookup(id: &str) -> Option<&'static dyn Property> {
     ALL.iter().copied().find(|p| p.id() == id)
